@@ -4,12 +4,18 @@
 // zone tree (Vec-backed, no HashMap) - against a reference list kept in the
 // harness.
 //
-// Every add has a SYMBOLIC type drawn from three values (A, TXT, AAAA: the
-// three types sort differently from their draw order, and all compare RDATA
-// octet-wise in class IN - which RDATA count as equal for the name-bearing
-// types is property C19's business and is decided there on
+// Every add has a CONCRETE type (one harness per type sequence over TXT, A,
+// AAAA - types whose draw order differs from their sort order and which all
+// compare RDATA octet-wise in class IN; which RDATA count as equal for the
+// name-bearing types is property C19's business and is decided there on
 // Rdata::equals / RdataSetOwned directly), a fully symbolic 32-bit TTL and a
-// fully symbolic 2-octet RDATA.  The reference is RFC 2181 section 5.2 (one
+// fully symbolic 2-octet RDATA.  A symbolic type was tried first: the
+// position of the RRset in the Vec then becomes symbolic, every later
+// Vec growth explores the reallocation path with a symbolic-size array copy
+// and CBMC runs out of memory (3 adds: > 8 GB with CaDiCaL, and CBMC's SMT
+// back end aborts with `map::at`).  For the same reason no RRset receives a
+// third record in these histories (the second record already makes the
+// buffer's size depend on the symbolic TTL/RDATA).  The reference is RFC 2181 section 5.2 (one
 // TTL per RRset) + section 8 (TTLs with the top bit set are zero) and "an
 // RRset is a set": a record whose RDATA is already present changes nothing.
 
@@ -88,9 +94,7 @@ fn real_add(list: &mut RrsetList, sel: usize, raw_ttl: u32, rd: &[u8; 2]) -> Res
     }
 }
 
-fn step(list: &mut RrsetList, reference: &mut RefList) -> (bool, bool) {
-    let sel: usize = kani::any();
-    kani::assume(sel < 3);
+fn step(list: &mut RrsetList, reference: &mut RefList, sel: usize) -> (bool, bool) {
     let ttl: u32 = kani::any();
     let rd: [u8; 2] = kani::any();
     let before_n = reference.sets[sel].n;
@@ -171,42 +175,50 @@ fn observe(list: &RrsetList, reference: &RefList) {
     assert!(count == expected, "[C20] iteration yields every RRset that was added");
 }
 
-// @harness props=C20 tier=quick mem=4 t=1200 fn="RrsetList::add,RrsetList::lookup,RrsetList::iter,RdataSetOwned::insert,RdataSet::iter"
-//   bound="every history of exactly 3 adds: type symbolic in {TXT, A, AAAA} (class IN), TTL any u32, RDATA any 2 octets; then lookup of each pool type + NS and a full iteration; unwind 6"
-//   sym="3 x (type selector, ttl:u32, rdata:[u8;2])"
-#[kani::proof]
-#[kani::unwind(6)]
-fn c20_rrsetlist_hist3() {
+/// Selector values: 0 = TXT, 1 = A, 2 = AAAA.
+fn history3(t1: usize, t2: usize, t3: usize) -> ([bool; 3], [bool; 3], RefList) {
     let mut list = RrsetList::default();
     let mut reference = RefList::new();
-    let (_, _) = step(&mut list, &mut reference);
-    let (rej2, dup2) = step(&mut list, &mut reference);
-    let (rej3, dup3) = step(&mut list, &mut reference);
+    let (r1, d1) = step(&mut list, &mut reference, t1);
+    let (r2, d2) = step(&mut list, &mut reference, t2);
+    let (r3, d3) = step(&mut list, &mut reference, t3);
     observe(&list, &reference);
-    kani::cover!(rej3, "third add rejected for its TTL (state observed right after a rejected add)");
-    kani::cover!(rej2 && !rej3, "second add rejected, third accepted");
-    kani::cover!(dup2 || dup3, "a duplicate RDATA was silently ignored");
-    kani::cover!(reference.sets[0].present && reference.sets[1].present && reference.sets[2].present, "three RRsets, created in non-sorted type order");
-    kani::cover!(reference.sets[1].n == 3, "one RRset with three distinct RDATA");
     core::mem::forget(list);
+    ([r1, r2, r3], [d1, d2, d3], reference)
 }
 
-// @harness props=C20 tier=thorough mem=6 t=2400 fn="RrsetList::add,RrsetList::lookup,RrsetList::iter,RdataSetOwned::insert,RdataSet::iter"
-//   bound="every history of exactly 4 adds (as c20_rrsetlist_hist3); unwind 7"
-//   sym="4 x (type selector, ttl:u32, rdata:[u8;2])"
+// @harness props=C20 tier=quick mem=4 t=1500 fn="RrsetList::add,RrsetList::lookup,RrsetList::iter,RdataSetOwned::insert,RdataSet::iter"
+//   bound="history of 3 adds with types TXT, A, TXT (class IN): each add has any u32 TTL and any 2-octet RDATA; then lookup of TXT, A, AAAA, NS and a full iteration; unwind 6"
+//   sym="3 x (ttl:u32, rdata:[u8;2])" cbmc="--max-field-sensitivity-array-size 1024"
 #[kani::proof]
-#[kani::unwind(7)]
-fn c20_rrsetlist_hist4() {
-    let mut list = RrsetList::default();
-    let mut reference = RefList::new();
-    let (_, _) = step(&mut list, &mut reference);
-    let (_, _) = step(&mut list, &mut reference);
-    let (rej3, _) = step(&mut list, &mut reference);
-    let (rej4, dup4) = step(&mut list, &mut reference);
-    observe(&list, &reference);
-    kani::cover!(rej4, "fourth add rejected for its TTL");
-    kani::cover!(rej3 && !rej4, "third add rejected, fourth accepted");
-    kani::cover!(dup4, "a duplicate RDATA was silently ignored");
-    kani::cover!(reference.sets[2].n == 2 && reference.sets[0].n == 2, "two RRsets with two RDATA each");
-    core::mem::forget(list);
+#[kani::unwind(6)]
+fn c20_rrsetlist_txt_a_txt() {
+    let (rej, dup, reference) = history3(0, 1, 0);
+    kani::cover!(rej[2], "third add rejected for its TTL (the state is observed right after a rejected add)");
+    kani::cover!(dup[2], "a duplicate RDATA was silently ignored");
+    kani::cover!(reference.sets[0].n == 2 && reference.sets[1].n == 1, "TXT RRset with two RDATA, A RRset inserted in front of it");
+}
+
+// @harness props=C20 tier=thorough mem=4 t=1500 fn="RrsetList::add,RrsetList::lookup,RrsetList::iter,RdataSetOwned::insert,RdataSet::iter"
+//   bound="history of 3 adds with types A, A, TXT; TTLs and RDATA symbolic; unwind 6"
+//   sym="3 x (ttl:u32, rdata:[u8;2])" cbmc="--max-field-sensitivity-array-size 1024"
+#[kani::proof]
+#[kani::unwind(6)]
+fn c20_rrsetlist_a_a_txt() {
+    let (rej, dup, reference) = history3(1, 1, 0);
+    kani::cover!(rej[1] && !rej[2], "second add rejected, third (new RRset) accepted");
+    kani::cover!(dup[1], "a duplicate RDATA was silently ignored");
+    kani::cover!(reference.sets[1].n == 2 && reference.sets[0].present, "A RRset with two RDATA and a TXT RRset");
+    kani::cover!(reference.sets[1].ttl == 0 && reference.sets[1].n == 2, "two records whose TTLs agree after RFC 2181 normalisation");
+}
+
+// @harness props=C20 tier=thorough mem=4 t=1500 fn="RrsetList::add,RrsetList::lookup,RrsetList::iter,RdataSetOwned::insert,RdataSet::iter"
+//   bound="history of 3 adds with types AAAA, TXT, A (three RRsets, each new one sorts before the previous); TTLs and RDATA symbolic; unwind 6"
+//   sym="3 x (ttl:u32, rdata:[u8;2])" cbmc="--max-field-sensitivity-array-size 1024"
+#[kani::proof]
+#[kani::unwind(6)]
+fn c20_rrsetlist_aaaa_txt_a() {
+    let (rej, _dup, reference) = history3(2, 0, 1);
+    assert!(!rej[0] && !rej[1] && !rej[2], "[C20] the first record of an RRset is accepted with any TTL");
+    kani::cover!(reference.sets[0].present && reference.sets[1].present && reference.sets[2].present, "three RRsets created in non-sorted type order");
 }
